@@ -44,3 +44,25 @@ fn f8_diff_same_backend_id_other_direction() {
     }
     assert_eq!(applied.backends, b.backends, "diff(A,B) applied to A must give B");
 }
+
+/// same backend_id at two addresses where a secondary field (sticky_id) makes the bucket
+/// order differ from the (backend_id, address) order
+#[test]
+fn f8_diff_same_backend_id_bucket_order_differs() {
+    let mk = |ip: [u8; 4], sticky: Option<&str>| {
+        RequestType::AddBackend(AddBackend {
+            cluster_id: "c".into(),
+            backend_id: "b".into(),
+            address: SocketAddress::new_v4(ip[0], ip[1], ip[2], ip[3], 80),
+            sticky_id: sticky.map(|s| s.to_string()),
+            ..Default::default()
+        })
+    };
+    let a = state(&[mk([10, 0, 0, 1], Some("x")), mk([10, 0, 0, 2], None)]);
+    let b = state(&[mk([10, 0, 0, 1], None), mk([10, 0, 0, 2], None)]);
+    let mut applied = state(&[mk([10, 0, 0, 1], Some("x")), mk([10, 0, 0, 2], None)]);
+    for req in a.diff(&b) {
+        let _ = applied.dispatch(&req);
+    }
+    assert_eq!(applied.backends, b.backends, "diff(A,B) applied to A must give B");
+}
